@@ -156,4 +156,96 @@ example : WF [([0, 1], 3), ([2], 2), ([0], 1)] ∧
     [([0, 1], (3 : Rat)), ([2], 2), ([0], 1)].Perm [([0], 1), ([2], 2), ([0, 1], 3)] := by decide +kernel
 example : pav [([0], 1), ([2], 2), ([0, 1], 3)] 2 = .ok [Slot.cand 0, Slot.cand 2] := by decide +kernel
 
+/-! ### ballots as SETS: the order in which a ballot lists its candidates does not matter either -/
+
+/-- the profile with every ballot in canonical (ascending) order -/
+def apprCanon (p : Profile) : Profile := p.map (fun bw => (sortDedup bw.1, bw.2))
+
+/-- the same ballots (as sets) with the same weights, in any order, each listing its candidates in any order -/
+def ApprSame (p₁ p₂ : Profile) : Prop := (apprCanon p₁).Perm (apprCanon p₂)
+
+instance (p₁ p₂ : Profile) : Decidable (ApprSame p₁ p₂) := by unfold ApprSame; infer_instance
+
+theorem apprSame_of_perm {p₁ p₂ : Profile} (h : p₁.Perm p₂) : ApprSame p₁ p₂ := h.map _
+
+theorem sortDedup_perm_of_nodup {b : List Cand} (hb : b.Nodup) : (sortDedup b).Perm b :=
+  (List.perm_ext_iff_of_nodup (sortDedup_nodup b) hb).mpr (fun _ => mem_sortDedup)
+
+theorem interLen_perm_left {b b' : List Cand} (h : b.Perm b') (e : List Cand) : interLen b e = interLen b' e := by
+  unfold interLen; exact (h.filter _).length_eq
+
+theorem apprCanon_wf (p : Profile) : WF (apprCanon p) := by
+  intro bw hbw
+  obtain ⟨x, _, rfl⟩ := List.mem_map.mp hbw
+  exact sortDedup_nodup _
+
+theorem reweighted_canon {p : Profile} (hwf : WF p) : reweighted (apprCanon p) = reweighted p := by
+  funext e c
+  unfold reweighted apprCanon
+  rw [List.map_map]
+  congr 1
+  apply List.map_congr_left
+  intro bw hbw
+  have hperm := sortDedup_perm_of_nodup (hwf bw hbw)
+  simp only [Function.comp_def, interLen_perm_left hperm, List.contains_eq_mem, mem_sortDedup]
+
+theorem satH_canon {p : Profile} (hwf : WF p) : satH (apprCanon p) = satH p := by
+  funext a
+  unfold satH apprCanon
+  rw [List.map_map]
+  congr 1
+  apply List.map_congr_left
+  intro bw hbw
+  simp only [Function.comp_def, interLen_perm_left (sortDedup_perm_of_nodup (hwf bw hbw))]
+
+theorem allCands_canon (p : Profile) : allCands (apprCanon p) = allCands p := by
+  apply appr_sorted_ext (sortDedup_sorted _) (sortDedup_sorted _)
+  intro x
+  show x ∈ allCands (apprCanon p) ↔ x ∈ allCands p
+  rw [mem_allCands, mem_allCands]
+  unfold apprCanon
+  constructor
+  · rintro ⟨bw, hbw, hx⟩
+    obtain ⟨y, hy, rfl⟩ := List.mem_map.mp hbw
+    exact ⟨y, hy, mem_sortDedup.mp hx⟩
+  · rintro ⟨bw, hbw, hx⟩
+    exact ⟨_, List.mem_map.mpr ⟨bw, hbw, rfl⟩, mem_sortDedup.mpr hx⟩
+
+theorem spavSpecGo_congr {p q : Profile} (hall : allCands p = allCands q) (hrw : reweighted p = reweighted q) :
+    ∀ (k : Nat) (elected : List Cand), spavSpecGo p k elected = spavSpecGo q k elected := by
+  intro k
+  induction k with
+  | zero => intro elected; rfl
+  | succ k ih =>
+    intro elected
+    unfold spavSpecGo
+    simp only [hall, hrw, ih]
+
+/-- **SPAV: independence of the ballot order and of the listing order inside a ballot** (ballots are sets): equal
+    outcomes -/
+theorem spav_same {p₁ p₂ : Profile} (h : ApprSame p₁ p₂) (hwf₁ : WF p₁) (hwf₂ : WF p₂) (n : Nat) :
+    spav p₁ n = spav p₂ n := by
+  have e₁ : spav p₁ n = spavSpecGo p₁ n [] := spavGo_eq_spec hwf₁ n []
+  have e₂ : spav p₂ n = spavSpecGo p₂ n [] := spavGo_eq_spec hwf₂ n []
+  rw [e₁, e₂, ← spavSpecGo_congr (allCands_canon p₁) (reweighted_canon hwf₁),
+    ← spavSpecGo_congr (allCands_canon p₂) (reweighted_canon hwf₂)]
+  exact spavSpecGo_perm h n []
+
+/-- **PAV: independence of the ballot order and of the listing order inside a ballot**: equal outcomes -/
+theorem pav_same {p₁ p₂ : Profile} (h : ApprSame p₁ p₂) (hwf₁ : WF p₁) (hwf₂ : WF p₂) (n : Nat) :
+    pav p₁ n = pav p₂ n := by
+  have canon : ∀ p, WF p → pav p n = pav (apprCanon p) n := by
+    intro p hwf
+    unfold pav
+    rw [pavStep_eq_spec freshCoefs freshCoefs_ok p hwf n,
+      pavStep_eq_spec freshCoefs freshCoefs_ok _ (apprCanon_wf p) n]
+    unfold pavSpec maximisers pavOrder
+    rw [allCands_canon, satH_canon hwf]
+  rw [canon p₁ hwf₁, canon p₂ hwf₂]
+  exact pav_perm h (apprCanon_wf p₁) n
+
+example : ApprSame [([0, 1], 5), ([0, 2], 4), ([3], 3)] [([3], 3), ([1, 0], 5), ([2, 0], 4)] ∧
+    WF [([3], 3), ([1, 0], 5), ([2, 0], 4)] := by decide +kernel
+example : spav [([3], 3), ([1, 0], 5), ([2, 0], 4)] 3 = .ok [0, 3, 1] := by decide +kernel
+
 end VL.Perm
